@@ -162,6 +162,13 @@ Theorem C12_config_memory_constant :
 Proof. exact mem_config_memory_constant. Qed.
 Print Assumptions C12_config_memory_constant.
 
+(* After the repair NO history of ANY configuration ends with a write to read-only memory (the fatal fault that
+   truncate on facility / default level names caused). *)
+Theorem C12_no_fault_after_repair :
+  forall c evs, c_trunc_mode c = TruncCopy -> mem_run c (mem_init c) evs <> StepStop Fault.
+Proof. intros c evs H. exact (mem_run_copy_no_fault c evs (mem_init c) H). Qed.
+Print Assumptions C12_no_fault_after_repair.
+
 (* LONG-LIVED STORES (pipeline key sets, metric key sets) keep deep copies: a store of copies reads the same in every
    state of the pipeline, whatever happens to records, buffers and pools afterwards; routing a record either finds its
    key bytes or appends exactly these bytes. *)
